@@ -61,7 +61,7 @@ theorem get?_remove_self (st : Store) (k : Nat) : (st.remove k).get? k = none :=
 
 /-- `transition_after` up to a state `m` with the same slab keys and the same `P` of every entry: the final store is
     `m`'s, possibly without entry `k` -/
-theorem transitionAfter_shapeP {α : Type} (P : Stream → α) (hP : ∀ x b, P ({ x with isCounted := b } : Stream) = P x)
+theorem transitionAfter_shapeA {α : Type} (P : Stream → α) (hP : ∀ x b, P ({ x with isCounted := b } : Stream) = P x)
     (s : Streams) (k : Nat) (b : Bool) :
     ∃ m : Streams, SameKeys s m ∧ SPr P s m ∧
       ((s.transitionAfter k b).store = m.store ∨ (s.transitionAfter k b).store = m.store.remove k) := by
@@ -107,7 +107,7 @@ theorem transitionAfter_shapeP {α : Type} (P : Stream → α) (hP : ∀ x b, P 
 theorem transitionAfter_sub {α : Type} (P : Stream → α) (hP : ∀ x b, P ({ x with isCounted := b } : Stream) = P x)
     (s : Streams) (k : Nat) (b : Bool) (j : Nat) (hl : Live (s.transitionAfter k b) j) :
     Live s j ∧ P ((s.transitionAfter k b).stream j) = P (s.stream j) := by
-  obtain ⟨m, hk, hp, hfin⟩ := transitionAfter_shapeP P hP s k b
+  obtain ⟨m, hk, hp, hfin⟩ := transitionAfter_shapeA P hP s k b
   rcases hfin with e | e
   · have hl' : Live m j := by unfold Live at hl ⊢; rw [e] at hl; exact hl
     refine ⟨hk.live.mp hl', ?_⟩
